@@ -11,11 +11,11 @@ for l in open('/verif/properties.jsonl'):
         break
 else:
     sys.exit('no such property')
-print(f"""You are helping to test a verification tool by writing realistic faulty variants of a code base. Work ONLY inside the git worktree at /tmp/wt_{pid} (a checkout of MinterTeam/minter-go-node: a Tendermint ABCI blockchain node written in Go — coin creation, bonding-curve conversions, swap pools with limit orders, staking/delegation, multisig, checks, validator rewards over an IAVL state; main code under coreV2/). Do NOT modify /repo, and do NOT read or list anything under /verif.
+print(f"""You are helping to test a verification tool by writing realistic faulty variants of a code base. Work ONLY inside the git worktree at /tmp/wt_{pid} (a checkout of MinterTeam/minter-go-node: a Tendermint ABCI blockchain node written in Go — coin creation, bonding-curve conversions, swap pools with limit orders, staking/delegation, multisig, checks, validator rewards over an IAVL state; main code under coreV2/). Do NOT modify /repo, and do NOT read or list anything under /verif. Do NOT use `git stash` (the stash is shared by all worktrees of the repository and other agents work in sibling worktrees): to set a change aside use `git diff > file; git checkout -- .` and `git apply file`.
 
 Environment: there is no network. Start every shell command with
   export GOFLAGS=-mod=mod GOPROXY=off GOSUMDB=off GOTOOLCHAIN=local
-`go build ./...` and `go test -vet=off -count=1 ./...` work offline (the full suite takes several minutes; single packages are much quicker). Existing tests (e.g. coreV2/transaction/*_test.go, coreV2/minter/*_test.go, coreV2/state/*_test.go) show how to set up a state, keys, candidates and a Blockchain for a test.
+`go build ./...` and `go test -vet=off -count=1 ./...` work offline (the full suite takes several minutes; single packages are much quicker). NOTE: on the unchanged tree 20 tests already fail (coreV2/minter TestBlockchain_UpdateCommission, 3 in coreV2/state/accounts|candidates, 16 in coreV2/transaction: TestAddOrderSwapPoolData_* and TestLockStakeTx) and the `tests` package aborts; 'the suite still passes' means: no test that passes on the unchanged tree fails with your change. Existing tests (e.g. coreV2/transaction/*_test.go, coreV2/minter/*_test.go, coreV2/state/*_test.go) show how to set up a state, keys, candidates and a Blockchain for a test.
 
 The property (it must hold of the node, for every input / history / schedule / crash point):
   {p['id']}: {p['title']}
